@@ -77,6 +77,26 @@ def gen_script(rnd, tier):
             L.append("q %d" % i)
         if rnd.random() < 0.5:
             L.append("q %d" % rnd.randint(1, n))
+    if rnd.random() < 0.25:
+        # both generations of a re-loaded interface in one ancestry, reached through different bases (fresh nodes; the twins
+        # never share a base): every view must see the members of BOTH objects
+        x, t, a, b, s2 = n + 1, n + 2, n + 3, n + 4, n + 5
+        bx = rnd.sample(range(1, n + 1), min(n, rnd.choice([0, 1])))
+        b2 = dict(ib)
+        b2[x], b2[t], b2[a], b2[b] = bx or [0], [0], [x], [t]
+        b2[s2] = rnd.choice([[a, b], [a, t], [b, x]])
+        if c03.cpython_mirror_mro(b2, s2) is not None:
+            ib.update(b2)
+            L.append("iface %d %s %s %s %s" % ((x, ",".join(map(str, bx)) or "-") + members()))
+            L.append("twin %d %d %s %s %s" % ((t, x) + members()))
+            L.append("iface %d %d %s %s %s" % ((a, x) + members()))
+            L.append("iface %d %d %s %s %s" % ((b, t) + members()))
+            L.append("iface %d %s %s %s %s" % ((s2, ",".join(map(str, b2[s2]))) + members()))
+            for i in (a, b, s2):
+                L.append("q %d" % i)
+            for nm in NAMES:
+                L.append("get %d %s" % (s2, nm))
+        return L
     if rnd.random() < 0.35:
         # a re-loaded twin (equal name and module, another object) replaces a base of its only dependent, then gets bases
         # of its own that define further names / tags / invariants (restrictions as in C02's scenario)
